@@ -107,6 +107,30 @@ def run(ctx: Ctx) -> None:
                     rep.bad("C17.R1", sb.qname, desc, sb.loc(), wit, "ref-writer", what="the persisted codec reference is not the one of the codec that wrote the blob")
                 else:
                     rep.ok("C17.R1", sb.qname, desc, refs[0][0].loc(refs[0][1]))
+                # the reference is persisted only for a blob that this very call serialised
+                from ..cfg import cfg_of
+                from .common import dominated, done_nodes
+                scfg = cfg_of(sb)
+                ser_done = [d for s_ in sers for d in done_nodes(scfg, s_)]
+                for g, r in refs:
+                    if g is sb:
+                        tgt: Optional[ast.AST] = r
+                    else:
+                        tgt = None
+                        for call in [x for x in sb.own_nodes() if isinstance(x, ast.Call)]:
+                            fs_, _d = prog.callees(sb, call, ctx._types)
+                            if g in fs_:
+                                tgt = call
+                    if tgt is None:
+                        continue
+                    desc2 = f"`{unparse(r, 30)}` is persisted only after this call serialised the blob with that codec"
+                    w = dominated(ctx, sb, tgt, ser_done)
+                    if w is None:
+                        rep.ok("C17.R1", sb.qname, desc2, sb.loc(tgt))
+                    else:
+                        rep.bad("C17.R1", sb.qname, desc2, sb.loc(tgt), ["path on which the metadata names the codec although the blob file was not written by this call "
+                                "(a file already present under the key - written earlier by another codec, or left without metadata by a crash - is paired with this reference):"] + w,
+                                "ref-without-write", what="metadata can name a codec that did not write the blob it describes")
         n2 += check_reader(ctx, c, "C17.R2")
     rep.floor("C17.R1", n1, 2)
     rep.floor("C17.R2", n2, 2)
@@ -233,6 +257,49 @@ def run(ctx: Ctx) -> None:
                 "after registering a second codec instance under an existing reference, writes pick the new instance (by type) while reads resolve the "
                 "persisted reference to the old one"], "tables", what=f"{name} updates the write-side and read-side codec tables inconsistently")
     rep.floor("C17.R6", n6, 2)
+
+    # ---- R7 exact lookup by reference ---------------------------------------------------------------
+    rep.rule("C17.R7", "the reference table is read with the requested reference itself as key (no derived / fallback key): a reference that is not "
+                       "registered is an error, never another codec")
+    ref_table = None
+    for m in reg.methods.values():
+        lt = _local_tables(m, None)
+        for n in m.own_nodes():
+            if isinstance(n, ast.Subscript) and isinstance(n.ctx, ast.Store) and isinstance(n.slice, ast.Call) \
+                    and isinstance(n.slice.func, ast.Attribute) and n.slice.func.attr == "ref":
+                if isinstance(n.value, ast.Attribute):
+                    ref_table = n.value.attr
+                elif isinstance(n.value, ast.Name) and n.value.id in lt:
+                    ref_table = lt[n.value.id]
+    if ref_table is None:
+        raise AnchorError("role reference table (registry attribute stored under <codec>.ref()) not found")
+    n7 = 0
+    for m in reg.methods.values():
+        fl = flow_of(prog, m)
+        for n in m.own_nodes():
+            key = None
+            if isinstance(n, ast.Subscript) and isinstance(n.ctx, ast.Load) and isinstance(n.value, ast.Attribute) and n.value.attr == ref_table:
+                key = n.slice
+            elif isinstance(n, ast.Call) and isinstance(n.func, ast.Attribute) and n.func.attr in ("get", "pop") and isinstance(n.func.value, ast.Attribute) \
+                    and n.func.value.attr == ref_table and n.args:
+                key = n.args[0]
+            if key is None:
+                continue
+            n7 += 1
+            desc = f"`{unparse(n, 50)}` looks the codec up under the requested reference itself"
+            exact = False
+            if isinstance(key, ast.Name) and key.id in m.params:
+                exact = all(d.kind == "param" for d in fl.root_defs(key))
+            elif isinstance(key, ast.Call) and isinstance(key.func, ast.Attribute) and key.func.attr == "ref":
+                exact = True
+            if exact:
+                rep.ok("C17.R7", m.qname, desc, m.loc(n))
+            else:
+                defs = [unparse(d.stmt, 70) for d in fl.root_defs(key)] if isinstance(key, ast.Name) else []
+                rep.bad("C17.R7", m.qname, desc, m.loc(n), [f"{m.loc(n)}: key `{unparse(key, 50)}` is not the reference that was asked for" + (f" (defined by {defs})" if defs else ""),
+                        "a blob whose metadata names an unregistered reference (a user codec absent from this process) is decoded by another codec"],
+                        stmt_key(n), what="an unregistered codec reference falls back to a different codec")
+    rep.floor("C17.R7", n7, 1)
 
 
 def check_reader(ctx: Ctx, c: Class, rule: str) -> int:
@@ -377,12 +444,31 @@ def _io_profile(ctx: Ctx, m: Func) -> Dict[str, list]:
     return prof
 
 
+def _local_tables(m: Func, tables) -> Dict[str, str]:
+    out: Dict[str, str] = {}
+    for n in m.own_nodes():
+        if isinstance(n, ast.Assign) and isinstance(n.value, ast.Name):
+            for t in n.targets:
+                if isinstance(t, ast.Attribute) and isinstance(t.value, ast.Name) and t.value.id == "self" and (tables is None or t.attr in tables):
+                    out[n.value.id] = t.attr
+    return out
+
+
 def _table_stores(ctx: Ctx, reg: Class, m: Func, guards: List[str], depth: int) -> List[Tuple[str, str, str]]:
     """(table attribute, 'unconditional' | 'guarded', where) for stores self.<table>[...] = codec reachable from m"""
     out: List[Tuple[str, str, str]] = []
     tables = ("_handled_types", "_protocols")
+    # a local dictionary that becomes the table (`protocols = {}; ...; self._protocols = protocols`)
+    local_tables = _local_tables(m, tables)
     for n in m.own_nodes():
-        if isinstance(n, ast.Subscript) and isinstance(n.ctx, ast.Store) and isinstance(n.value, ast.Attribute) and n.value.attr in tables:
+        if isinstance(n, ast.Subscript) and isinstance(n.ctx, ast.Store) and isinstance(n.value, ast.Name) and n.value.id in local_tables:
+            t = local_tables[n.value.id]
+            guarded = bool(guards)
+            for a in _anc(m, n):
+                if isinstance(a, ast.If) and any(isinstance(x, ast.Name) and x.id == n.value.id for x in ast.walk(a.test)):
+                    guarded = True
+            out.append((t, "guarded" if guarded else "unconditional", m.loc(n)))
+        elif isinstance(n, ast.Subscript) and isinstance(n.ctx, ast.Store) and isinstance(n.value, ast.Attribute) and n.value.attr in tables:
             t = n.value.attr
             guarded = bool(guards)
             for a in _anc(m, n):
